@@ -4,6 +4,8 @@ import (
 	"fmt"
 	"time"
 
+	v1 "k8s.io/api/core/v1"
+
 	"verif/h"
 	"verif/sim"
 )
@@ -20,7 +22,8 @@ type c07Case struct {
 	Fleet   bool
 	Tight   bool // cloud max leaves room for exactly one more node
 	// Taint describes the tainted nodes' state: fresh (tainted 1q ago) | expired (5q ago, past the hard
-	// grace period) | annotated (fresh, the newest one carries the no-delete annotation)
+	// grace period) | annotated (fresh, the newest one carries the no-delete annotation) | noexecute /
+	// prefer (the group's taint_effect is NoExecute / PreferNoSchedule and the taints carry it)
 	Taint string
 }
 
@@ -58,6 +61,12 @@ func c07Build(p c07Case) *h.Scenario {
 	}
 	if p.Fleet {
 		g.Opts.AWS.LaunchTemplateID, g.Opts.AWS.LaunchTemplateVersion = "lt-1", "1"
+	}
+	switch p.Taint {
+	case "noexecute":
+		g.Opts.TaintEffect = v1.TaintEffectNoExecute
+	case "prefer":
+		g.Opts.TaintEffect = v1.TaintEffectPreferNoSchedule
 	}
 	return &h.Scenario{
 		Name:     p.name(),
@@ -105,6 +114,7 @@ func c07Build(p c07Case) *h.Scenario {
 					if p.Taint == "annotated" && firstT {
 						o.Annotation = "keep"
 					}
+					o.TaintEffect = g.Opts.TaintEffect
 					firstT = false
 				case "f":
 					o.ForceTaint = true
@@ -150,7 +160,8 @@ func c07Cases(tier string) []c07Case {
 										}
 										out = append(out, c07Case{u, t, f, pat, ord, mode, n, fleet, tight, "fresh"})
 										if t > 0 && pat == "asc" && ord == "ut" && !fleet {
-											out = append(out, c07Case{u, t, f, pat, ord, mode, n, fleet, tight, "expired"}, c07Case{u, t, f, pat, ord, mode, n, fleet, tight, "annotated"})
+											out = append(out, c07Case{u, t, f, pat, ord, mode, n, fleet, tight, "expired"}, c07Case{u, t, f, pat, ord, mode, n, fleet, tight, "annotated"},
+												c07Case{u, t, f, pat, ord, mode, n, fleet, tight, "noexecute"}, c07Case{u, t, f, pat, ord, mode, n, fleet, tight, "prefer"})
 										}
 									}
 								}
@@ -176,7 +187,7 @@ func init() {
 	register(&Check{
 		ID:    "C07",
 		Level: "model_checking",
-		Rule: "every single-scan case (untainted 1..2, tainted 0..3/4 with ascending/descending/equal/paired creation times, tainted nodes fresh / already past their grace period / carrying the no-delete annotation, force-tainted empty 0..2 removed earlier in the scan, list orders, restore|up, need 1..5, SetDesiredCapacity|fleet, loose|tight cloud max) explored with every get/update of the untaint loop failing " +
+		Rule: "every single-scan case (untainted 1..2, tainted 0..3/4 with ascending/descending/equal/paired creation times, tainted nodes fresh / already past their grace period / carrying the no-delete annotation / tainted with a non-default taint_effect, force-tainted empty 0..2 removed earlier in the scan, list orders, restore|up, need 1..5, SetDesiredCapacity|fleet, loose|tight cloud max) explored with every get/update of the untaint loop failing " +
 			"(1 fault quick, 2 thorough); non-trivial = scans whose reference class is up/restore; distinct = (case, class, |U|,|T|,|F|, observed untaints/requests)",
 		Scenarios:       C07Scenarios,
 		ShardByScenario: true,
